@@ -34,7 +34,7 @@ impl Scenario for C14 {
             real: vec!["server TcpTransport tasks", "SecureChannelService::open_secure_channel (issue and renew)", "SecureChannel (server side) verify_and_remove_security / apply_security", "MessageHandler / AttributeService::write"],
             stubbed: vec!["TCP socket", "client (raw scripted peer built from the real SecureChannel / Chunker)"],
             assumptions: vec!["RSA 2048 only", "client half: every third run; the scripted server never sends old-token messages after its OpenSecureChannel response (TCP preserves order)"],
-            fault_kinds: vec!["request_in_flight_across_renew", "forged_token", "double_renew", "client_renewal", "response_under_new_token_right_after_renewal"],
+            fault_kinds: vec!["request_in_flight_across_renew", "forged_token", "double_renew", "client_renewal", "response_under_new_token_right_after_renewal", "request_and_renewal_in_one_burst"],
         }
     }
     fn runs(&self, tier: Tier) -> u64 {
@@ -73,8 +73,14 @@ impl Scenario for C14 {
                     }
                 }
                 7 => {
-                    steps.push(json!({"op": "renew_end"}));
-                    pending_renew = false;
+                    if !pending_renew && renewals < 2 && rng.chance(0.5) {
+                        // a request and the renewal leave the client in one burst
+                        steps.push(json!({"op": "request_and_renew_burst", "requests": rng.urange(1, 3)}));
+                        renewals += 1;
+                    } else {
+                        steps.push(json!({"op": "renew_end"}));
+                        pending_renew = false;
+                    }
                 }
                 _ => steps.push(json!({"op": "forged", "how": *rng.pick(&["other_nonces", "token_id", "token_id_zero", "token_id_older"])})),
             }
@@ -227,6 +233,97 @@ async fn run(plan: &Value, ctx: &mut Ctx) {
                     server_seen_token = server_seen_token.max(token_used);
                 } else if !took_effect {
                     value -= 1;
+                }
+            }
+            "request_and_renew_burst" => {
+                if held_response.is_some() {
+                    continue;
+                }
+                ctx.fault("request_and_renewal_in_one_burst");
+                let old_token = c.chan.token_id();
+                let mut burst: Vec<u8> = Vec::new();
+                let n = s["requests"].as_u64().unwrap_or(1);
+                for _ in 0..n {
+                    value += 1;
+                    let msg = write_req(&mut c, &var, value);
+                    if let Ok((_, chunks)) = c.encode_message(&msg) {
+                        for ch in chunks {
+                            burst.extend_from_slice(&ch);
+                        }
+                    }
+                }
+                let req = c.opn_request(true, 3_600_000);
+                let opn_id = match c.encode_message(&req) {
+                    Ok((id, chunks)) => {
+                        for ch in chunks {
+                            burst.extend_from_slice(&ch);
+                        }
+                        id
+                    }
+                    Err(_) => continue,
+                };
+                if !c.send_bytes(&burst).await {
+                    break;
+                }
+                // read raw frames until the OpenSecureChannel response: which token do the
+                // responses that precede it name?
+                use tokio::io::AsyncReadExt;
+                use tokio_util::codec::Decoder;
+                let deadline = tokio::time::Instant::now() + Duration::from_millis(300);
+                let mut before_opn: Vec<u32> = Vec::new();
+                let mut opn_chunk: Option<Vec<u8>> = None;
+                'read: loop {
+                    loop {
+                        match c.codec.decode(&mut c.inbuf) {
+                            Ok(Some(opcua::core::comms::tcp_codec::Message::Chunk(ch))) => {
+                                if &ch.data[0..3] == b"OPN" {
+                                    opn_chunk = Some(ch.data.clone());
+                                    break 'read;
+                                } else if ch.data.len() >= 16 {
+                                    before_opn.push(u32::from_le_bytes([ch.data[12], ch.data[13], ch.data[14], ch.data[15]]));
+                                }
+                            }
+                            Ok(Some(_)) => break 'read,
+                            Ok(None) => break,
+                            Err(_) => break 'read,
+                        }
+                    }
+                    let now = tokio::time::Instant::now();
+                    if now >= deadline || c.io.is_none() {
+                        break;
+                    }
+                    let mut tmp = [0u8; 16384];
+                    match tokio::time::timeout(deadline - now, c.io.as_mut().unwrap().read(&mut tmp)).await {
+                        Ok(Ok(k)) if k > 0 => c.inbuf.extend_from_slice(&tmp[..k]),
+                        _ => break,
+                    }
+                }
+                let took_effect = current_value(&server, &var) == value;
+                ctx.log(&format!("burst>{}:{}", before_opn.len(), if opn_chunk.is_some() { "renewed" } else { "no-renewal" }), "");
+                if let Some(bytes) = opn_chunk {
+                    // the client learns the new token only now
+                    let unknown: Vec<u32> = before_opn.iter().cloned().filter(|t| *t != old_token).collect();
+                    if !unknown.is_empty() {
+                        ctx.violate(
+                            "C14",
+                            "response-under-unannounced-token",
+                            "side=server",
+                            format!("{} response chunk(s) that the server wrote before its OpenSecureChannel response name token {:?}; the client's current token is {} and it cannot know a newer one before it has seen that response", unknown.len(), unknown, old_token),
+                        );
+                    }
+                    if let Ok(chunk) = c.chan.verify_and_remove_security(&bytes) {
+                        if let Ok(SupportedMessage::OpenSecureChannelResponse(resp)) = opcua::core::comms::chunker::Chunker::decode(&[chunk], &c.chan, None) {
+                            server_token = resp.security_token.token_id;
+                            let _ = c.apply_opn_response(&resp);
+                            let _ = opn_id;
+                        }
+                    }
+                }
+                if !took_effect {
+                    ctx.violate("C14", "old-token-rejected", "side=server,pattern=request-then-renew-burst", "a request secured under the current token and sent right before the renewal request did not take effect".to_string());
+                    value -= n as i32;
+                } else {
+                    server_seen_token = server_seen_token.max(old_token);
                 }
             }
             "renew_begin" => {
